@@ -136,18 +136,18 @@ Qed.
    iff the fresh optimizer already carries the same live value (PARTIAL: the full statement
    "a restored scheduler continues the same trajectory" is refuted in Findings/C17.v). *)
 Theorem noise_restore_exact_partial (s s' : ss T) :
-  f_oval s' = f_oval s -> noise_load_state_dict s' (noise_state_dict s) = s.
-Proof. intros H. destruct s, s'; cbn in *. now subst. Qed.
+  f_oval s' = f_oval s -> f_lam s' = f_lam s -> noise_load_state_dict s' (noise_state_dict s) = s.
+Proof. intros H L. destruct s, s'; cbn in *. now subst. Qed.
 
-Theorem noise_restore_fields (s s' : ss T) :
+Theorem noise_restore_fields (s s' : ss T) : f_lam s' = f_lam s ->
   let r := noise_load_state_dict s' (noise_state_dict s) in
   f_last_epoch r = f_last_epoch s /\ same_cfg r s /\ f_oval r = f_oval s'.
-Proof. destruct s, s'; cbn; unfold same_cfg; cbn; repeat split. Qed.
+Proof. intros L. destruct s, s'; cbn in *; unfold same_cfg; cbn; subst; repeat split. Qed.
 
 (* a Lambda schedule is correct again from its next step on: the base value is part of its state *)
-Theorem noise_lambda_restore_next (s s' : ss T) :
+Theorem noise_lambda_restore_next (s s' : ss T) : f_lam s' = f_lam s ->
   noise_step noise_lambda_get (noise_load_state_dict s' (noise_state_dict s)) = noise_step noise_lambda_get s.
-Proof. destruct s, s'; reflexivity. Qed.
+Proof. intros L. destruct s, s'; cbn in L; subst; reflexivity. Qed.
 
 (* ---------------- grad-clip schedulers (same shapes, other attribute) ---------------- *)
 
@@ -249,11 +249,14 @@ Proof.
 Qed.
 
 Theorem clip_restore_exact_partial (s s' : ss T) :
-  f_oval s' = f_oval s -> clip_load_state_dict s' (clip_state_dict s) = s.
-Proof. intros H. destruct s, s'; cbn in *. now subst. Qed.
+  f_oval s' = f_oval s -> f_lam s' = f_lam s -> clip_load_state_dict s' (clip_state_dict s) = s.
+Proof. intros H L. destruct s, s'; cbn in *. now subst. Qed.
 
-Theorem clip_lambda_restore_next (s s' : ss T) :
+Theorem clip_lambda_restore_next (s s' : ss T) : f_lam s' = f_lam s ->
   clip_step clip_lambda_get (clip_load_state_dict s' (clip_state_dict s)) = clip_step clip_lambda_get s.
-Proof. destruct s, s'; reflexivity. Qed.
+Proof. intros L. destruct s, s'; cbn in L; subst; reflexivity. Qed.
+(* the saved state holds no function: it can be pickled whatever the schedule is *)
+Theorem state_dict_holds_no_function (s : ss T) : sd_lam (noise_state_dict s) = None /\ sd_lam (clip_state_dict s) = None.
+Proof. split; reflexivity. Qed.
 
 End P.
